@@ -612,6 +612,8 @@ static void run_case(void) {
         }
     }
     mon_fp(perturb_signature());
+    mon_distinct("interleaving_signatures", perturb_signature());
+
     mon_count("scenarios", 1);
     mon_count("tasks", (uint64_t)S.ntasks);
     mon_count("events", n);
